@@ -142,7 +142,15 @@ fn sub_layer_scenarios(ctx: &Ctx, out: &mut Outcome, n: u64, secs: f64) {
     run_cases(ctx, out, SubSpec { name: "layer_scenarios", cases: n, exhaustive: false, max_secs: secs }, |i, want, st| {
         let mut rng = ctx.rng("layer_scenarios", i);
         let large = i % 400 == 7;
-        let (w, h) = if large { (rng.int(257, 420) as i32, rng.int(257, 340) as i32) } else { (rng.int(4, 14) as i32, rng.int(4, 14) as i32) };
+        // (one surface of more than 2^20 pixels per run)
+        let very_large = i % 2000 == 407;
+        let (w, h) = if very_large {
+            (rng.int(1024, 1150) as i32, rng.int(1000, 1100) as i32)
+        } else if large {
+            (rng.int(257, 420) as i32, rng.int(257, 340) as i32)
+        } else {
+            (rng.int(4, 14) as i32, rng.int(4, 14) as i32)
+        };
         let n = (w * h) as usize;
         let init = if rng.chance(0.2) { vec![0; n] } else { canary(&mut rng, n) };
         let prof = SceneProfile { max_size: 12, clips: 0.3, layers: 0.3, transforms: 0.2, solid_weight: 8, ops: (1, 3) };
@@ -225,6 +233,10 @@ fn sub_layer_scenarios(ctx: &Ctx, out: &mut Outcome, n: u64, secs: f64) {
             } else {
                 if nested { ops.push(Op::PopLayer); }
                 ops.push(Op::PopLayer);
+                // B is still in force, now on the surface: only B (and whatever lies below it) limits this
+                if rng.chance(0.7) {
+                    ops.push(whole(&mut rng, w, h));
+                }
                 ops.push(Op::PopClip);
             }
             if outer_clip {
@@ -584,6 +596,7 @@ pub fn run(ctx: &Ctx) -> Outcome {
             sub_opacity_lab(ctx, &mut out);
             sub_mask_lab(ctx, &mut out, ctx.n(20_000, 300_000), secs / 2.);
             sub_general(ctx, &mut out, "scenes", SceneProfile::general(), ctx.n(80_000, 1_000_000), secs);
+            sub_layer_scenarios(ctx, &mut out, ctx.n(6_000, 100_000), secs / 2.);
         }
         "C05" => {
             out = Outcome::new(&format!(
@@ -594,6 +607,7 @@ pub fn run(ctx: &Ctx) -> Outcome {
             let p = SceneProfile { max_size: 12, clips: 1.6, layers: 0.3, transforms: 0.5, solid_weight: 6, ops: (4, 14) };
             sub_general(ctx, &mut out, "scenes_clip_heavy", p, ctx.n(80_000, 1_200_000), secs);
             sub_clip_order(ctx, &mut out, ctx.n(80_000, 1_000_000), secs / 2.);
+            sub_layer_scenarios(ctx, &mut out, ctx.n(10_000, 150_000), secs / 2.);
         }
         "C06" => {
             out = Outcome::new(&format!(
